@@ -64,7 +64,8 @@ def generate(ws, n, seed, vworker, sub="g", extra=None):
     rc, so, se = vlib.sh(cmd, timeout=600)
     if rc != 0:
         vlib.harness_fail("generator failed: " + se[-2000:])
-    pats = sorted("./%s/%s" % (sub, d) for d in os.listdir(os.path.join(ws, sub)) if os.path.isdir(os.path.join(ws, sub, d)))
+    # (the shadow/ tree holds the namesake packages: imported by the generated packages, not a package itself)
+    pats = sorted("./%s/%s" % (sub, d) for d in os.listdir(os.path.join(ws, sub)) if os.path.isdir(os.path.join(ws, sub, d)) and d != "shadow")
     # every generated package must compile: the workers drop packages with type errors, and a generator
     # defect would otherwise silently thin out the corpus (up to 600 packages: a few seconds)
     if n <= 600:
